@@ -13,7 +13,7 @@ K_ENVS = {"quick": 4, "thorough": 8}
 MIN_NONTRIVIAL = {"quick": 200, "thorough": 2000}
 RULE = (
     "programs: seeded loop nests up to depth 3 (constant and dynamic lb/ub/step, ub not a multiple of step, lb != 0; tagged test.op effect ops "
-    "before/after/between inner loops; allocs, memref.dim, subviews and affine.min sizes depending or not on induction variables) compiled with "
+    "before/after/between inner loops; scf.if regions (condition on an induction variable) around ops and loops; in 15% of the programs a one-element counter buffer that is incremented through a view of it and read directly, the value read going to an effect op; allocs, memref.dim, subviews and affine.min sizes depending or not on induction variables) compiled with "
     "pipeline-canonicalize-for, reuse-memref-allocs, or both; original and transformed function are executed under K environments (runtime "
     "bounds, argument shapes) and the traces of (op tag, evaluated index operands, allocation site + offsets + sizes of memref operands) must be "
     "identical. Degenerate use of the simulator: one core, no schedule, no fault. non-trivial = the pass changed the IR and >= 1 effect op ran; "
